@@ -45,7 +45,12 @@ def gen_case(rng):
                 b = None
             tape.append([str(rng.choice(DURS)), b, evals])
         calls.append(dict(cfg=cfg, tape=tape))
-    return dict(init_best=rng.choice([None, 4, 7, 1]), calls=calls)
+    case = dict(init_best=rng.choice([None, 4, 7, 1]), calls=calls)
+    if rng.random() < 0.08:
+        # time also passes BEFORE the first check of a call (the entry evaluation of a fresh population can be slow): outside
+        # the model, whose clock moves only inside evolve calls - these cases go through the oracle only
+        case["entry_dt"] = rng.choice(["1/3", "3/4", "11/4", "29/10", "5", "12"])
+    return case
 
 
 def exhaustive_cases():
@@ -111,6 +116,7 @@ def impl_main(payload):
             self.cur_best, self.cur_evals, self.tape = fl(init_best), 0, []
             self.evolves, self.viol, self.cfg, self.t0 = [], [], None, None
             self.indep_improve_age, self.indep_last = 0, None
+            self.entry_dt = None
 
         def note_update(self):
             last, cur = self.indep_last, self.cur_best
@@ -148,6 +154,9 @@ def impl_main(payload):
             self.note_update()
 
         def get_best_fitness(self):
+            if self.entry_dt is not None:            # the first query of a call: the entry evaluation takes its time
+                Clock.t += Fraction(self.entry_dt)
+                self.entry_dt = None
             return self.cur_best
 
         def get_best_individual(self):
@@ -175,6 +184,7 @@ def impl_main(payload):
             g = cl["cfg"]
             opt.cfg, opt.tape, opt.evolves = g, [list(w) for w in cl["tape"]], []
             opt.call_start_age, opt.t0 = opt.generational_age, Clock.t
+            opt.entry_dt = c.get("entry_dt")
             if opt.indep_last is None:
                 pass
             # the entry update happens before any evolution: mirror it in the independent tracker
@@ -261,7 +271,7 @@ def check(rep, proof):
         return
     results = res["results"]
     oracle_bad = [(i, r["viol"]) for i, r in enumerate(results) if r["viol"]]
-    idx = [i for i, r in enumerate(results) if r["robust"]]
+    idx = [i for i, r in enumerate(results) if r["robust"] and "entry_dt" not in cases[i]]
     pairs = [(coq_case(cases[i]), results[i]["out"]) for i in idx]
     bad, log = vlib.coq_compare("c14", HEADER, RUNNER, pairs)
     st = {}
@@ -278,7 +288,8 @@ def check(rep, proof):
              "boundary) and counted; thorough adds an exhaustive small scope; distinct by case text",
         samples=[cases[len(exh)]],
         correspondence=dict(cases=len(pairs), disagreements=len(bad), exhaustive_small_scope=len(exh),
-                            excluded_near_float_boundary=len(cases) - len(pairs)),
+                            excluded_near_float_boundary=sum(1 for r in results if not r["robust"]),
+                            oracle_only_entry_time_cases=sum(1 for c in cases if "entry_dt" in c)),
         oracle_violations=len(oracle_bad),
         distribution=dict(first_status=st),
     )
